@@ -68,12 +68,8 @@ class Module:
             cur_sig = equiv.build_sigdb(self.raw_functions, self.raw_classes, cls, extra)
             ref_sig = equiv.build_sigdb(ref_funcs, ref_classes, cls, extra)
             for tree_, sig_ in ((self.tree, cur_sig), (ref_tree, ref_sig)):
-                for st_ in tree_.body:
-                    if isinstance(st_, ast.Assign) and len(st_.targets) == 1 and isinstance(st_.targets[0], ast.Name) and isinstance(st_.value, (ast.Dict, ast.Tuple)) \
-                            and all(isinstance(x, (ast.Dict, ast.Tuple, ast.Constant, ast.expr_context)) for x in ast.walk(st_.value)):
-                        nm_ = st_.targets[0].id
-                        if sum(1 for z in ast.walk(tree_) if isinstance(z, ast.Name) and z.id == nm_ and isinstance(z.ctx, ast.Store)) == 1:
-                            sig_[('modconst', nm_)] = st_.value
+                for nm_, val_ in module_constants(tree_).items():
+                    sig_[('modconst', nm_)] = val_
             if cls and ('rebuild', cls) in cur_sig:
                 cur_sig[('rebuild', cls)] = cur_exp.expand(cur_sig[('rebuild', cls)], cls=cls)
             ok, ta, tb = equiv.equivalent(cur, ref, cur_exp, ref_exp, cls, cur_sig, ref_sig)
@@ -88,7 +84,7 @@ class Module:
                 try:
                     tgt0 = self.classes[cls][name] if cls else self.functions[name]
                     present(tgt0)
-                    present_tables(tgt0, cur_sig)
+                    present_tables(tgt0, cur_sig, ref)
                 except Exception:
                     pass
                 # not proved: the rules look at the current version.  Branch polarity is brought to the spelling the confirmed
@@ -203,7 +199,32 @@ def present(fn):
     ast.fix_missing_locations(fn)
 
 
-def present_tables(fn, sigdb):
+def module_constants(tree):
+    """module-level NAME = <literal tuple / dict of constants, possibly naming other such constants>, NAME bound once in the module:
+    -> {NAME: literal with the inner names written out}"""
+    import copy as _copy
+    cand = {}
+    for st in tree.body:
+        if isinstance(st, ast.Assign) and len(st.targets) == 1 and isinstance(st.targets[0], ast.Name) and isinstance(st.value, (ast.Dict, ast.Tuple)) \
+                and all(isinstance(x, (ast.Dict, ast.Tuple, ast.Constant, ast.Name, ast.expr_context)) for x in ast.walk(st.value)):
+            nm = st.targets[0].id
+            if sum(1 for z in ast.walk(tree) if isinstance(z, ast.Name) and z.id == nm and isinstance(z.ctx, (ast.Store, ast.Del))) == 1:
+                cand[nm] = st.value
+    done = {k: v for k, v in cand.items() if not any(isinstance(x, ast.Name) for x in ast.walk(v))}
+    for _ in range(4):
+        for k, v in cand.items():
+            if k in done:
+                continue
+            names = {x.id for x in ast.walk(v) if isinstance(x, ast.Name)}
+            if names <= set(done):
+                class R(ast.NodeTransformer):
+                    def visit_Name(self, n):
+                        return _copy.deepcopy(done[n.id])
+                done[k] = R().visit(_copy.deepcopy(v))
+    return done
+
+
+def present_tables(fn, sigdb, ref=None):
     """more spelling-only rewrites for a changed function the prover could not match: a loop over a literal table (or a module
     constant that is one) is unrolled - including the search loop `for row in TABLE: if key == row[0]: ...; break` -, and
     getattr(obj, 'name') is written obj.name.  Names and statement kinds are kept, so the rules see the if / elif chain again."""
@@ -304,7 +325,69 @@ def present_tables(fn, sigdb):
         fn.body = walk(fn.body)
     finally:
         equiv._KERNEL_ALIASES = saved
+    # [getattr(o, n) for n in TABLE] -> [o.a, o.b, ...]
+    canon = equiv.ExprCanon(nz, arith=False)
+
+    class LC(ast.NodeTransformer):
+        def visit_ListComp(self, n):
+            self.generic_visit(n)
+            g = n.generators[0] if len(n.generators) == 1 else None
+            if g is not None:
+                ci = const_iter(g.iter)
+                if ci is not None:
+                    n = ast.ListComp(elt=n.elt, generators=[ast.comprehension(target=g.target, iter=ci, ifs=g.ifs, is_async=g.is_async)])
+            try:
+                un = canon.unroll_comp(n)
+            except Exception:
+                un = None
+            if un is None:
+                return n
+            return ast.copy_location(G().visit(un), n)
+    fn.body = [LC().visit(b) for b in fn.body]
+    # a local name for an attribute chain (flange = self.flange), bound once, the chain never stored to in this function: written out
+    counts = {}
+    for n in ast.walk(fn):
+        if isinstance(n, ast.Name) and isinstance(n.ctx, (ast.Store, ast.Del)):
+            counts[n.id] = counts.get(n.id, 0) + 1
+    params = {a.arg for a in fn.args.posonlyargs + fn.args.args + fn.args.kwonlyargs}
+    stored = {dotted(n) for n in ast.walk(fn) if isinstance(n, ast.Attribute) and isinstance(n.ctx, (ast.Store, ast.Del)) and dotted(n)}
+    aliases = {}
+    ref_aliases = set()
+    if ref is not None:
+        # the confirmed version's own local names for attribute chains are the spelling the rules know: kept
+        ref_aliases = {(n.targets[0].id, dotted(n.value)) for n in ast.walk(ref) if isinstance(n, ast.Assign) and len(n.targets) == 1
+                       and isinstance(n.targets[0], ast.Name) and isinstance(n.value, ast.Attribute) and dotted(n.value)}
+    for n in ast.walk(fn):
+        if isinstance(n, ast.Assign) and len(n.targets) == 1 and isinstance(n.targets[0], ast.Name) and counts.get(n.targets[0].id) == 1 \
+                and n.targets[0].id not in params and isinstance(n.value, ast.Attribute):
+            d = dotted(n.value)
+            if d and d.split('.')[0] == 'self' and d.count('.') <= 2 and not any(sd == d or d.startswith(sd + '.') for sd in stored) \
+                    and (n.targets[0].id, d) not in ref_aliases:
+                aliases[n.targets[0].id] = (n, n.value)
+    if aliases:
+        class AL(ast.NodeTransformer):
+            def visit_Name(self, n):
+                if isinstance(n.ctx, ast.Load) and n.id in aliases:
+                    return ast.copy_location(_copy.deepcopy(aliases[n.id][1]), n)
+                return n
+
+        def strip(stmts):
+            out = []
+            for st in stmts:
+                if any(st is a[0] for a in aliases.values()):
+                    continue
+                for f in ('body', 'orelse', 'finalbody'):
+                    b = getattr(st, f, None)
+                    if isinstance(b, list) and b and isinstance(b[0], ast.stmt) and not isinstance(st, (ast.FunctionDef, ast.ClassDef)):
+                        setattr(st, f, strip(b) or ([ast.copy_location(ast.Pass(), st)] if f == 'body' else []))
+                if isinstance(st, ast.Try):
+                    for h in st.handlers:
+                        h.body = strip(h.body) or [ast.copy_location(ast.Pass(), st)]
+                out.append(AL().visit(st))
+            return out
+        fn.body = strip(fn.body)
     ast.fix_missing_locations(fn)
+    present(fn)
 
 
 def equiv_global_sigs():
